@@ -191,6 +191,8 @@ CHECKS['C03'] = {
         {'engine': 'shapeseq', 'variant': 'san', 'profile': 'limits', 'kv': {'inst': 'all'}, 'quick': 1200, 'thorough': 36000, 'avg_case_s': 0.05},
         {'engine': 'boxseq', 'variant': 'san', 'profile': 'ops', 'kv': {'inst': 'all'}, 'quick': 2400, 'thorough': 80000, 'avg_case_s': 0.1},
         {'engine': 'boxseq', 'variant': 'san', 'profile': 'conv', 'kv': {'inst': 'all'}, 'quick': 800, 'thorough': 32000, 'avg_case_s': 0.1},
+        # constraint propagation on boxes with independently open/closed finite bounds, >= 3 variables (one branch per sign pattern)
+        {'engine': 'boxseq', 'variant': 'san', 'profile': 'prop', 'kv': {'inst': 'all'}, 'quick': 3600, 'thorough': 72000, 'avg_case_s': 0.08},
     ],
     'prefixes': ['C03.'],
     'required_counters': ['sound_checks', 'view_checks', 'pred_checks', 'ctor_checks', 'op.affine_image', 'op.bounded_affine_preimage', 'op.generalized_affine_image_lr',
